@@ -14,6 +14,7 @@ let parse_fault s =
   match s.[0] with
   | 'b' -> Notify.FailBefore k
   | 'a' -> Notify.FailAfter k
+  | 'c' -> Notify.FailBefore k        (* COMMIT of the k-th write fails: see resolve_commit_faults *)
   | _ -> failwith ("bad fault " ^ s)
 
 let parse_case (line : string) : case =
@@ -28,7 +29,7 @@ let parse_case (line : string) : case =
       else failwith ("bad head part " ^ part))
     (split_on '/' head);
   (* strip the optional 8th field of every submission *)
-  let faults = ref [] in
+  let faults = ref [] and commit_level = ref [] in
   (* X = restart of the process on the same database: nothing changes for the model (the store persists, the
      channels are registered again) *)
   let toks = Stdlib.List.filter (fun t -> t <> "" && t <> "X") (split_on ';' hist) in
@@ -46,10 +47,30 @@ let parse_case (line : string) : case =
   let toks' = Stdlib.List.map (fun t ->
       if starts_with "g=" t || starts_with "f=" t then t
       else match split_on ',' t with
-        | [a; b; c; d; e; f; g; x] -> faults := parse_fault x :: !faults; Stdlib.String.concat "," [a; b; c; d; e; f; g]
-        | _ -> faults := Notify.NoFault :: !faults; t) toks in
+        | [a; b; c; d; e; f; g; x] ->
+          faults := parse_fault x :: !faults; commit_level := (x.[0] = 'c') :: !commit_level;
+          Stdlib.String.concat "," [a; b; c; d; e; f; g]
+        | _ -> faults := Notify.NoFault :: !faults; commit_level := false :: !commit_level; t) toks in
   let h = parse_history (Stdlib.String.concat ";" toks') in
-  { chans = !chans; n = !n; h; subs_f = Stdlib.List.combine h.subs (Stdlib.List.rev !faults) }
+  (* A COMMIT-level fault on the k-th write call is the model's "k-th planned write fails without having happened"
+     (the transaction is rolled back) - EXCEPT when that write is an UpdateState of no hashes: the SQL layer
+     returns before opening a transaction (database/sql/headers.go UpdateState), so there is no COMMIT to fail.
+     Which one it is depends on the store at that moment: resolved by running the extracted model along. *)
+  let s = ref (Chain.init h.gid h.gpl) in
+  let subs_f = Stdlib.List.map2 (fun sub (x, cl) ->
+      let x' =
+        if not cl then x else
+          match x with
+          | Notify.FailBefore kk ->
+            let (_, ws) = Chain.plan h.forbidden !s sub in
+            (match Stdlib.List.nth_opt ws (int_of_nat kk) with
+             | Some (Chain.WUpdate ([], _)) -> Notify.NoFault
+             | _ -> x)
+          | _ -> x in
+      let ((s', _), _) = Notify.add_f h.forbidden !s sub x' in
+      s := s';
+      (sub, x')) h.subs (Stdlib.List.combine (Stdlib.List.rev !faults) (Stdlib.List.rev !commit_level)) in
+  { chans = !chans; n = !n; h; subs_f }
 
 (* hang = a slow channel that is never released; late = ok (the target answers 200, only later) *)
 let beh_of = function
